@@ -471,6 +471,18 @@ impl TypeChecker {
         }
         self.symbols.exit_scope();
 
+        for (elif_cond, elif_body) in &if_stmt.elif_branches {
+            let elif_ty = self.check_expr(elif_cond);
+            let elif_compatible = self.types_compatible(&elif_ty, &ResolvedType::Bool);
+            ensure_bool_condition(&elif_ty, elif_cond.span, elif_compatible, &mut self.errors);
+
+            self.symbols.enter_scope(ScopeKind::Block);
+            for stmt in elif_body {
+                self.check_statement(stmt);
+            }
+            self.symbols.exit_scope();
+        }
+
         if let Some(else_body) = &if_stmt.else_body {
             self.symbols.enter_scope(ScopeKind::Block);
             for stmt in else_body {
